@@ -207,7 +207,7 @@ def contexts_for(tokens, value: int | None = None) -> list[str]:
     if not wholly_parenthesised(tokens):
         ctx.append("direct")
     if lexable_in_directive(tokens):
-        ctx += ["dl", "assign", "symbol", "macro", "if"]
+        ctx += ["dl", "assign", "symbol", "macro", "if", "loop_body", "macro_body_twice"]
         if value is not None and -2 <= value <= 6:
             ctx.append("for")       # loop bound: the body is assembled max(0, value) times
         if value is not None and 0 <= value < 0x100:
@@ -228,7 +228,12 @@ def program_for(ctx: str, text: str) -> str:
     if ctx == "symbol":
         return head + f"zz = {text}\n.dl zz\n"
     if ctx == "macro":
-        return head + ".macro mm(pp) {\n.dl pp\n}\n" + f"mm({text})\n"
+        # the first parameter carries the name of a symbol the expression may mention: arguments belong to the call site
+        return head + ".macro mm(va, pp) {\n.dl pp\n}\n" + f"mm(0x7777, {text})\n"
+    if ctx == "loop_body":
+        return head + f".for zi := 0, 3 {{\n.dl {text}\n}}\n"
+    if ctx == "macro_body_twice":
+        return head + f".macro mb() {{\n.dl {text}\nlda.w #{text}\n}}\nmb()\nmb()\n"
     if ctx == "if":
         return head + f".if {text} {{\n.db 1\n}} else {{\n.db 0\n}}\n"
     if ctx == "shadow":
@@ -247,6 +252,10 @@ def expected_bytes(ctx: str, v: int) -> bytes:
         return b"\x01" if v != 0 else b"\x00"
     if ctx == "shadow":
         return bytes([0xA9, v, v, 0xA9, 1])
+    if ctx == "loop_body":
+        return le(v, 3) * 3
+    if ctx == "macro_body_twice":
+        return (le(v, 3) + b"\xa9" + le(v, 2)) * 2
     if ctx == "for":
         return bytes(0x40 + i for i in range(max(0, v))) + b"\xee"
     return le(v, 3)
